@@ -23,7 +23,7 @@ from vc import api, native, prove  # noqa
 NATIVE_PY = os.environ.get("VC_NATIVE_PY", "/venv/bin/python")
 TIERS = {
     "quick": {"timeout_ms": 20000, "samples": 300, "standin": 20000, "max_paths": 6000},
-    "thorough": {"timeout_ms": 300000, "samples": 3000, "standin": 300000, "max_paths": 60000},
+    "thorough": {"timeout_ms": 300000, "samples": 1000, "standin": 300000, "max_paths": 60000},
 }
 
 
@@ -627,6 +627,9 @@ def main(argv):
     prop = argv[0]
     tier = argv[1] if len(argv) > 1 else os.environ.get("VERIF_TIER", "quick")
     seed = int(os.environ.get("VERIF_SEED", "0") or 0)
+    # wall-clock budget of one harness case in the VC generator (beyond it the case is undecided): keeps a run on a
+    # changed tree that makes the path count explode from taking hours
+    os.environ.setdefault("VC_CASE_SECONDS", "900" if tier != "thorough" else "7200")
     only = argv[2:] or None
     code, _ = run_property(prop, tier, seed, only=only)
     return code
